@@ -33,6 +33,19 @@ CLAIMED = {
    note=("Scenarios, argv and multi-fault sequences are sampled; only git-invocation x fault-kind is exhaustive per scenario. Trusts the proxy trace for "
          "'fault fired', git 2.39.5 for storage errors, and an 8 GiB RLIMIT_AS to turn runaway allocations into aborts."),
    design="DESIGN.md §3.3, §4 C13"),
+ "C14": dict(
+   level="exploration",
+   technique="deterministic simulation: environment-perturbation replay under a simulated wall clock (TZ, locale, cwd spelling, unrelated variables, repetition) against a reference execution and an independent UTC calendar",
+   text=("Per seeded scenario (repository history built with real git, or a stdin document, or overrides; one argv; one simulated instant placed near a UTC "
+         "midnight / year end / 29 February) a reference execution is compared byte for byte (stdout and exit status) with 10-14 perturbed executions in "
+         "fresh processes: TZ (named zones incl. +14:00 / -11:00 / +5:30, POSIX forms, garbage), LANG / LC_ALL / LC_TIME, seven cwd / -C spellings, 5-30 "
+         "unrelated but tempting variables (SOURCE_DATE_EPOCH, CI, GITHUB_REF_NAME, ZERV_*...), HOME unset, plain repetition. The clock seam turns the "
+         "property's exception into a checked statement: at a second instant the output may differ only for dirty / ahead-in-tag-mode states or templates "
+         "naming current_timestamp. Date-derived components (format_timestamp, calver preset, ts() components) are compared with an independent UTC "
+         "calendar under every TZ of the scenario; the hash-derived branch id is covered by byte equality across processes."),
+   note=("Sampling of argv shapes and histories; only locales C / C.utf8 / POSIX are installed (others exercise libc's failure path); templates that ask for "
+         "nondeterminism (now, get_random, get_env) are excluded by construction; GIT_* and RUST_LOG are related variables and are not perturbed."),
+   design="DESIGN.md §4 C14"),
 }
 
 NA = {
